@@ -320,11 +320,13 @@ class C11:
                     sc = {'h': 'sc', 'i': 0}
                 else:
                     sc = {'h': 'sc', 'i': 0}
-            else:
+            elif rng.random() < 0.5:
                 rc = self._rigid(b, rng)
                 b.emit('sc_roundtrip', {'sc': rc},
                        tags={'k': 'rigid-roundtrip', 'rt': True,
                              'rigid': True})
+            else:
+                self._rigid_model(b, rng)
         return {'config': {'faults': faults, 'node': {}}, 'events': b.events}
 
     def _rigid(self, b, rng):
@@ -341,6 +343,115 @@ class C11:
             'translation': [rfloat(rng, -3, 3, 3) for _ in range(3)],
             'rotation': [rfloat(rng, 0, 6, 3) for _ in range(3)]},
             store='rc')
+
+    def _rigid_model(self, b, rng):
+        """A model whose scatterer is a rigid cluster with priors among the
+        member, rotation and translation values."""
+        cnt = [0]
+
+        def site(fixed, lo, hi, p=0.5):
+            if rng.random() >= p:
+                return fixed, fixed
+            cnt[0] += 1
+            name = 'q%d' % cnt[0]
+            return ({'ctor': 'uniform', 'args': {
+                'lo': lo, 'hi': hi, 'name': name}}, {'p': name})
+        margs, mspec = [], []
+        for j in range(rng.randint(1, 3)):
+            r_a, r_s = site(rfloat(rng, 0.2, 0.5, 3), 0.1, 0.6, 0.3)
+            n_a, n_s = site(1.5, 1.4, 1.7, 0.2)
+            cen = [site(rfloat(rng, -2, 2, 3) + 3 * j, -3, 9, 0.15),
+                   site(rfloat(rng, -2, 2, 3), -3, 3, 0.15),
+                   site(rfloat(rng, 5, 9, 3), 4, 10, 0.15)]
+            margs.append({'op': 'sphere', 'args': {
+                'n': n_a, 'r': r_a, 'center': [c[0] for c in cen]}})
+            mspec.append({'n': n_s, 'r': r_s, 'center': [c[1] for c in cen]})
+        rot = [site(rfloat(rng, 0, 3, 3), 0, 3.1) for _ in range(3)]
+        tra = [site(rfloat(rng, -3, 3, 3), -4, 4) for _ in range(3)]
+        sp = b.emit('spheres', {'members': margs, 'warn': False},
+                    store='sps')
+        rc = b.emit('rigid_cluster', {
+            'spheres': sp, 'translation': [t[0] for t in tra],
+            'rotation': [r_[0] for r_ in rot]}, store='rc')
+        mo = b.emit('model', {'kind': 'alpha', 'sc': rc, 'alpha': 0.8,
+                              'optics': dict(OPT), 'th': 'auto'},
+                    store='rmo', tags={'k': 'model-rigid'})
+        spec = {'members': mspec, 'rotation': [r_[1] for r_ in rot],
+                'translation': [t[1] for t in tra],
+                'names': ['q%d' % (i + 1) for i in range(cnt[0])]}
+        for _ in range(rng.randint(1, 2)):
+            b.emit('rigid_model_probe', {'mo': mo, 'spec': spec,
+                                         'seed': rng.randrange(1000)},
+                   tags={'k': 'rigid-model', 'rigidmodel': True})
+        if rng.random() < 0.5:
+            # ... and after a trip through its text form
+            path = 'rigid_model_%d.yaml' % len(b.events)
+            b.emit('hp_save', {'obj': mo, 'path': path}, tags={'k': 'save'})
+            mo2 = b.emit('hp_load', {'path': path}, store='rmo',
+                         tags={'k': 'load', 'loadmodel': True})
+            b.emit('rigid_model_probe', {'mo': mo2, 'spec': spec,
+                                         'seed': rng.randrange(1000)},
+                   tags={'k': 'rigid-model-reloaded', 'rigidmodel': True})
+
+    def _check_rigid_model(self, ex, ev, rec):
+        ex.stats['oracle_sim'] += 1
+        if rec['outcome'] != 'ok':
+            ex.add(violation('C11.rigid-model', ev['id'],
+                             'querying a model on a rigid cluster raised '
+                             '%s: %s' % (rec['exc'], rec['msg'][:100]),
+                             sig='C11.rigid-model:exc:' + rec['exc']))
+            return
+        p = dict(rec['payload']['__dict__'])
+        spec = rec['rargs']['spec']
+
+        def und(v):
+            return dict(v['__dict__']) if isinstance(v, dict) and \
+                '__dict__' in v else v
+        for key in ('built_list', 'built_dict', 'built_guess', 'ref',
+                    'ref_guess'):
+            d = und(p[key])
+            if 'exc' in d:
+                if key.startswith('ref'):
+                    return      # the public route refuses these values
+                ex.add(violation('C11.rigid-model', ev['id'],
+                                 '%s raised %s: %s' % (key, d['exc'],
+                                                       d.get('msg', '')[:80]),
+                                 sig='C11.rigid-model:%s:%s' % (key,
+                                                                d['exc'])))
+                return
+        if sorted(p['names']) != sorted(spec['names']):
+            ex.add(violation('C11.rigid-model', ev['id'],
+                             'parameter names %r, priors used: %r' % (
+                                 p['names'], spec['names']),
+                             sig='C11.rigid-model:names'))
+            return
+
+        def same(a, b_):
+            a, b_ = und(a), und(b_)
+            if len(a['centers']) != len(b_['centers']):
+                return 'number of members'
+            for i, (x, y) in enumerate(zip(a['centers'], b_['centers'])):
+                if np.max(np.abs(np.asarray(x) - np.asarray(y))) > 1e-9:
+                    return 'centre of member %d: %r vs %r' % (
+                        i, np.asarray(x).tolist(), np.asarray(y).tolist())
+            for k_ in ('r', 'n'):
+                for i, (x, y) in enumerate(zip(a[k_], b_[k_])):
+                    if abs(_plainval(x) - _plainval(y)) > 1e-12:
+                        return '%s of member %d: %r vs %r' % (k_, i, x, y)
+            return None
+        for got, want, what in (
+                ('built_list', 'ref', 'scatterer built from parameter values'),
+                ('built_dict', 'ref', 'scatterer built from name-keyed '
+                                      'values'),
+                ('built_guess', 'ref_guess', 'initial-guess scatterer')):
+            d = same(p[got], p[want])
+            if d:
+                ex.add(violation(
+                    'C11.rigid-model', ev['id'],
+                    '%s of a model on a rigid cluster is not the rotated and '
+                    'translated collection of the substituted members: %s'
+                    % (what, d), sig='C11.rigid-model:' + got))
+                return
 
     # -------------------------------------------------------------- oracle
     def oracle(self, ex):
@@ -382,6 +493,8 @@ class C11:
                                  'model query raised %s: %s' % (
                                      rec['exc'], rec['msg'][:100]),
                                  sig='C11.query:' + rec['exc']))
+            elif tags.get('rigidmodel'):
+                self._check_rigid_model(ex, ev, rec)
             elif tags.get('tie'):
                 self._check_tie(ex, ev, rec, state)
             elif tags.get('rt'):
